@@ -129,12 +129,18 @@ func oracleC14(l *harness.Live) (c14Info, *harness.Failure) {
 		info.labels = append(info.labels, sizeLabel(len(ns)))
 		return info, nil
 	}
-	got, f := engineEval(l)
+	ce, f := compileLive(l)
 	if f != nil {
 		return info, f
 	}
-	if !got.Equal(info.want) {
-		return info, harness.Failf(info.want.String(), got.String(), "name function result differs from the documented value")
+	for round := 1; round <= 2; round++ { // the same compiled expression twice: the answer must not wear off
+		got, f := evalWith(ce, l)
+		if f != nil {
+			return info, f
+		}
+		if !got.Equal(info.want) {
+			return info, harness.Failf(info.want.String(), got.String(), "name function result differs from the documented value (evaluation %d of the compiled expression)", round)
+		}
 	}
 	if c, ok := l.AST.(*xast.Call); ok {
 		info.labels = append(info.labels, "fn:"+c.Name, fmt.Sprintf("fn-args:%d", len(c.Args)))
@@ -184,9 +190,34 @@ func TestC14Rapid(t *testing.T) {
 			}
 			c := &xast.Call{Name: fn}
 			if rapid.Bool().Draw(rt, "witharg") {
-				c.Args = []xast.Expr{g.FlatPath(xref.NodeSet{ctx})}
+				arg := g.FlatPath(xref.NodeSet{ctx})
+				if rapid.IntRange(0, 3).Draw(rt, "argpreds") == 0 {
+					// predicates on the argument's last step, within the fragments C02/C03 claim: a position
+					// only as the FIRST predicate of a child step reached from one context node, then a boolean one
+					desc := false
+					for _, sx := range arg.Steps {
+						if _, ok := sx.(xast.DSlash); ok {
+							desc = true
+						}
+						if sy, ok := sx.(*xast.Step); ok && sy.Axis == "descendant" {
+							desc = true
+						}
+					}
+					if st, ok := arg.Steps[len(arg.Steps)-1].(*xast.Step); ok && !desc {
+						if st.Axis == "child" && rapid.Bool().Draw(rt, "argpos") {
+							st.Preds = append(st.Preds, g.PosN())
+						}
+						st.Preds = append(st.Preds, g.BoolPred(nil, 0))
+					}
+				}
+				c.Args = []xast.Expr{arg}
 			}
 			e = c
+			if rapid.IntRange(0, 3).Draw(rt, "inpred") == 0 {
+				// the function inside a predicate, judged for many candidates in one evaluation
+				e = &xast.Path{Abs: true, Steps: []interface{}{xast.DSlash{}, &xast.Step{Axis: "child", Test: xast.NodeTest{Kind: "wild"}, Abbr: true,
+					Preds: []xast.Expr{&xast.Bin{Op: rapid.SampledFrom([]string{"=", "!="}).Draw(rt, "fnop"), L: c, R: &xast.Str{S: rapid.SampledFrom([]string{"a", "b", "p:a", "u1", "u2", "", "x"}).Draw(rt, "fnlit")}}}}}}
+			}
 		} else {
 			if rapid.Bool().Draw(rt, "withpreds") {
 				// predicates put name tests next to operator names, brackets and commas (the scanner's look-ahead)
